@@ -10,13 +10,20 @@ Binding R: every transition of the state graphs TLC dumps for the small configur
            permissions are compared with the TLC state.
 Binding T: seeded random adversarial sessions (arbitrary sequences of the universe's objects, long own chains, clock
            jumps around the five minute window) are recorded and validated by TLC against the same actions.
+Storage faults (the specification's `fault` variable / Fault action): the harness wraps `execute` of the node's
+           IdentityDatabase *instance*; an armed fault makes the next INSERT into the named table raise
+           sqlite3.OperationalError once.  Both bindings arm faults before disclosures, replays, incoming attestations
+           and own advertisements: what left the node and what its tables hold after the failed write, and what it does
+           with the replay afterwards, are compared with the TLC state like every other step.
 """
 from __future__ import annotations
 
 import json
 import os
 import random
+import re
 import shutil
+import sqlite3
 import struct
 
 from ..common import Ctx, setup_repo_path
@@ -32,9 +39,13 @@ REGMETA = {0: None, 1: {}, 2: {"a": "b"}}
 OWN_NAME = "own"
 MAX_OWN = 16
 
-KEEP = {"clock", "known", "els", "unch", "mdTab", "attTab", "chain", "perm", "handed", "out"}
-ACTIONS = ("Reg", "Adv", "Disc", "Miss", "SelfAdv", "ReqAdv", "ReqMissing", "Attest")
-GRAPHS = ("keys", "time", "meta", "chain", "atts", "owner")
+KEEP = {"clock", "known", "els", "unch", "mdTab", "attTab", "chain", "perm", "handed", "out", "fault"}
+ACTIONS = ("Reg", "Adv", "Disc", "Miss", "SelfAdv", "ReqAdv", "ReqMissing", "Attest", "Flt")
+GRAPHS = ("keys", "time", "meta", "chain", "atts", "owner", "fault", "ofault")
+QUICK_BUDGET = {"fault": 1800, "ofault": 900}          # real operations per graph in the quick tier (default 2500)
+FAULT_TABLE = {1: "attestations", 2: "metadata"}       # Identity.tla: TabAtt, TabMd
+INSERT_RE = re.compile(r"\s*INSERT\b.*?\bINTO\s+(\w+)", re.I | re.S)
+INJECTED = "database is locked [injected storage fault]"
 
 
 def fd(**kw):
@@ -117,6 +128,7 @@ class Universe:
             self.md[honest[t]] = cred.metadata
             if self.tok[t].content_hash != self.hashes[h] or cred.metadata.token_pointer != self.tok[t].get_hash():
                 raise MachineryError("universe: self_advertise built something else")
+        self.honest = honest
         self.ghost_pointer = b"\x99" * 32
         for m in range(1, nmd + 1):
             if m in self.md:
@@ -228,6 +240,35 @@ class Run:
         self.problems = []
         self.own_pos = {}
         self.stats = u.stats
+        self.fault_tab = 0          # the specification's `fault`: table whose next INSERT raises (0: none)
+        self.injected = 0           # storage errors raised so far
+        self.unrecorded = False     # a disclosure was cut short by a failed Attestations write (vacuity bookkeeping)
+        self._install_faults()
+
+    def _install_faults(self):
+        """Storage faults without a source hook: `execute` of this node's database instance is wrapped."""
+        db = self.a.identity_manager.database
+        if self.a.pseudonym_manager.database is not db:
+            raise MachineryError("the node's pseudonym does not use the identity manager's database")
+        real = db.execute
+
+        def execute(statement, *args, **kw):
+            if self.fault_tab:
+                m = INSERT_RE.match(statement)
+                if m and m.group(1).lower() == FAULT_TABLE[self.fault_tab]:
+                    self.fault_tab = 0
+                    self.injected += 1
+                    raise sqlite3.OperationalError(INJECTED)
+            return real(statement, *args, **kw)
+        db.execute = execute
+
+    def _user_call(self, fn, *args):
+        """A call of the node's user: the injected storage error may come out of it, nothing else may."""
+        try:
+            fn(*args)
+        except sqlite3.OperationalError as e:
+            if INJECTED not in str(e):
+                raise
 
     def close(self):
         self.a.cancel_all_pending_tasks()
@@ -266,6 +307,8 @@ class Run:
             ev = {"a": "reqmissing", "p": args[0], "k": args[1]}
         elif name == "Attest":
             ev = {"a": "attest", "p": args[0], "x": args[1]}
+        elif name == "Flt":
+            ev = {"a": "fault", "tab": args[0]}
         else:
             raise MachineryError("unknown action " + name)
         self.apply(ev)
@@ -276,6 +319,8 @@ class Run:
         D, At, Rm, Mr = self.P
         self.sent = []
         nexc = len(self.spy.exceptions)
+        ninj = self.injected
+        armed = self.fault_tab
         kind = ev["a"]
         if kind == "reg":
             m = REGMETA[ev["meta"]]
@@ -289,22 +334,35 @@ class Run:
         elif kind == "miss":
             self.send(ev["p"], Mr.msg_id, Mr(u.ser_tokens(ev["toks"])))
         elif kind == "selfadv":
-            a.self_advertise(u.own_hash[len(a.token_chain) + 1], OWN_NAME)
+            self._user_call(a.self_advertise, u.own_hash[len(a.token_chain) + 1], OWN_NAME)
             self._index_own()
         elif kind == "reqadv":
-            a.request_attestation_advertisement(u.peers[ev["p"]], u.own_hash[len(a.token_chain) + 1], OWN_NAME)
+            self._user_call(a.request_attestation_advertisement, u.peers[ev["p"]],
+                            u.own_hash[len(a.token_chain) + 1], OWN_NAME)
             self._index_own()
+        elif kind == "fault":
+            if ev["tab"] not in FAULT_TABLE:
+                raise MachineryError("unknown table %r" % (ev["tab"],))
+            self.fault_tab = ev["tab"]
         elif kind == "reqmissing":
             self.send(ev["p"], Rm.msg_id, Rm(ev["k"]))
         elif kind == "attest":
             self.send(ev["p"], At.msg_id, At(u.att[ev["x"]].get_plaintext_signed()))
         else:
             raise MachineryError("unknown event " + kind)
-        if len(self.spy.exceptions) > nexc:
+        if len(self.spy.exceptions) - nexc > self.injected - ninj:      # the injected storage error is expected
             self.problems.append("handler raised: " + self.spy.exceptions[-1][-300:])
         self.out = self.decode_out()
         st = self.stats
         st[kind] = st.get(kind, 0) + 1
+        if self.injected > ninj:
+            st["fault_hit_" + kind] = st.get("fault_hit_" + kind, 0) + 1
+            if armed == 1 and kind in ("disc", "miss") and not any(
+                    u.w["attSigner"][x - 1] == au for x, au in ev.get("atts", ())):
+                self.unrecorded = True          # no piggy-backed attestation was written: the own row's write failed
+        if self.unrecorded and self.out["att"]:
+            st["signed_after_failed_write"] = st.get("signed_after_failed_write", 0) + 1
+            self.unrecorded = False
         if self.out["att"]:
             st["signed"] = st.get("signed", 0) + 1
         if self.out["miss"]:
@@ -427,7 +485,7 @@ class Run:
                 "chain": len(a.token_chain),
                 "perm": tuple(a.permissions.get(u.peers[p], 0) for p in (1, 2, 3)),
                 "handed": tuple(frozenset(self.handed[p]) for p in (1, 2, 3)),
-                "out": self.out}
+                "out": self.out, "fault": self.fault_tab}
 
 
 def label(name, args):
@@ -451,18 +509,23 @@ def check_step(ctx, run, spec_state, labels, where):
     if d:
         ctx.violation("replay:%s:%s" % (name, ",".join(sorted(d))),
                       "real IdentityCommunity diverges from Identity.tla after %s: %s%s" % (
-                          labels[-1], meaning(d), describe(d)),
+                          labels[-1], meaning(d, proj), describe(d)),
                       {"where": where, "actions": labels, "diff": d})
         return True
     return False
 
 
-def meaning(d):
+def meaning(d, proj=None):
     """The divergence in the words of the property."""
     out = []
+    attested_rows = None if proj is None else {r["md"] for r in proj["attTab"] if r["auth"] == 0}
     if "out" in d:
         spec, impl = d["out"]["spec"], d["out"]["impl"]
-        if impl["att"] - spec["att"]:
+        if impl["att"] - spec["att"] and attested_rows is not None and not (impl["att"] - spec["att"]) <= attested_rows:
+            out.append("an AttestPayload for metadata %s left the node although its Attestations table holds no row "
+                       "for it (the write failed): nothing remembers the attestation, a replayed disclosure is "
+                       "attested again" % sorted(impl["att"] - spec["att"] - attested_rows))
+        elif impl["att"] - spec["att"]:
             out.append("the node signed and sent an attestation for metadata %s without the consent the specification "
                        "requires (registration of hash+subject+name+metadata younger than 300 s, verified chain, not "
                        "attested before)" % sorted(impl["att"] - spec["att"]))
@@ -503,7 +566,7 @@ class Job:
     """A TLC run in a background thread with its own scratch directory."""
 
     def __init__(self, pool, module, cfg, *, dump=False, simulate=None, depth=None, seed=None, coverage=True, env=None,
-                 workers=4, files=None):
+                 workers=4, files=None, light=False):
         self.tmp = scratch_dir("c17-")
         self.cfg = cfg
         self.dot = os.path.join(self.tmp, "g.dot") if dump else None
@@ -517,6 +580,8 @@ class Job:
             kw["seed"] = seed
             kw["workers"] = 1
             kw["coverage"] = False
+        if light:       # short runs: the JVM's start-up (optimising JIT, GC threads) costs more than the model checking
+            kw["java_opts"] = ("-XX:TieredStopAtLevel=1", "-XX:ParallelGCThreads=2")
         if env:
             kw["env"] = env
         if files:
@@ -626,7 +691,7 @@ def report_spec_violation(ctx, r, cfgname):
 # binding T: seeded random adversarial sessions recorded on the real node, validated by TLC (IdentityTrace.tla)
 # ---------------------------------------------------------------------------------------------------------------
 TICKS = (1, 5, 100, 250, 299, 301, 400)
-INPUT_KEYS = ("a", "h", "name", "subj", "meta", "d", "p", "mds", "toks", "atts", "k", "x")
+INPUT_KEYS = ("a", "h", "name", "subj", "meta", "d", "p", "mds", "toks", "atts", "k", "x", "tab")
 
 
 def observation(proj):
@@ -638,7 +703,7 @@ def observation(proj):
             "els": [sorted(x) for x in proj["els"]], "unch": [sorted(x) for x in proj["unch"]],
             "md": sorted(proj["mdTab"]),
             "att": sorted([r["subj"], r["auth"], r["signer"], r["md"]] for r in proj["attTab"]),
-            "chain": proj["chain"], "perm": list(proj["perm"])}
+            "chain": proj["chain"], "perm": list(proj["perm"]), "fault": proj["fault"]}
 
 
 def random_event(u, rng, run, reg_times, clock):
@@ -685,9 +750,43 @@ def random_event(u, rng, run, reg_times, clock):
         return {"a": "selfadv"}
     if x < 0.91 and chain < MAX_OWN:
         return {"a": "reqadv", "p": rng.choice((1, 2, 3))}
-    if x < 0.97:
+    if x < 0.95:
         return {"a": "reqmissing", "p": rng.choice((1, 2, 3)), "k": rng.choice((0, 0, 1, 2, rng.randint(0, chain + 2)))}
+    if x < 0.975:
+        return {"a": "fault", "tab": rng.choice((1, 1, 2))}
     return {"a": "attest", "p": rng.choice((1, 2, 3)), "x": rng.randint(1, natt)}
+
+
+def failed_write_opening(u, rng):
+    """Scenario family 'history, failed write, replay': a consented disclosure meets a storage fault, then the very
+    same disclosure comes again (and again after another fault, or after the registration was renewed)."""
+    w = u.w
+    t = rng.choice(sorted(u.honest))
+    p = w["tokOwner"][t - 1]
+    chain = [t]
+    while w["tokPar"][chain[0] - 1]:
+        chain.insert(0, w["tokPar"][chain[0] - 1])
+    mds = [u.honest[t]] + ([u.honest[chain[0]]] if len(chain) > 1 and rng.random() < 0.5 else [])
+    reg = {"a": "reg", "h": w["tokHash"][t - 1], "name": 1, "subj": p, "meta": rng.choice((0, 0, 1))}
+    disc = {"a": "disc", "p": p, "mds": mds, "toks": chain, "atts": []}
+    evs = [reg]
+    if len(mds) > 1:
+        evs.append({"a": "reg", "h": w["tokHash"][chain[0] - 1], "name": 1, "subj": p, "meta": 0})
+    if rng.random() < 0.3:
+        evs.append(dict(disc, toks=chain[-1:]))            # the chain arrives child first ...
+        evs.append({"a": "fault", "tab": rng.choice((1, 2))})
+        evs.append({"a": "miss", "p": p, "toks": chain[:-1]})   # ... and is completed while the write fails
+    else:
+        evs.append({"a": "fault", "tab": rng.choice((1, 1, 1, 2))})
+        evs.append(dict(disc))
+    evs.append(dict(disc))
+    if rng.random() < 0.5:
+        evs.append({"a": "fault", "tab": 1})
+    if rng.random() < 0.5:
+        evs.append({"a": "tick", "d": rng.choice((1, 5, 100))})
+        evs.append(dict(reg))
+    evs.append(dict(disc))
+    return evs
 
 
 def record_sessions(ctx, u, rng, count, length, owner_heavy_every=5):
@@ -701,6 +800,13 @@ def record_sessions(ctx, u, rng, count, length, owner_heavy_every=5):
                 for _ in range(rng.randint(9, 13)):
                     events.append(run_event(run, {"a": "selfadv"}))
                 events.append(run_event(run, {"a": "reqadv", "p": rng.choice((1, 2))}))
+            elif si % 3 == 1:
+                for ev in failed_write_opening(u, rng):
+                    if ev["a"] == "reg":
+                        reg_times.append(clock)
+                    elif ev["a"] == "tick":
+                        clock += ev["d"]
+                    events.append(run_event(run, ev))
             while len(events) < length:
                 ev = random_event(u, rng, run, reg_times, clock)
                 if ev["a"] == "reg":
@@ -731,7 +837,7 @@ def run_event(run, ev):
 
 def submit_sessions(pool, sessions):
     return Job(pool, "IdentityTrace.tla", "IdentityTrace.cfg", coverage=False, workers=1,
-               files={"traces.json": sessions})
+               files={"traces.json": sessions}, light=len(sessions) < 200)
 
 
 def rejected(job):
@@ -774,7 +880,7 @@ def collect_sessions(ctx, pool, job, sessions, tag):
 def expected_vs_logged(pool, events):
     """Diagnosis of a rejected event: let TLC apply the logged inputs and compare its state with the logged one."""
     job = Job(pool, "IdentityTrace.tla", "IdentityTrace_expect.cfg", coverage=False, workers=1,
-              files={"traces.json": [{"events": events}]})
+              files={"traces.json": [{"events": events}]}, light=True)
     try:
         r = job.result()
     except MachineryError:
@@ -792,9 +898,9 @@ def expected_vs_logged(pool, events):
               "els": tuple(frozenset(x) for x in e["els"]), "unch": tuple(frozenset(x) for x in e["unch"]),
               "mdTab": frozenset(e["md"]),
               "attTab": frozenset(fd(subj=r_[0], auth=r_[1], signer=r_[2], md=r_[3]) for r_ in e["att"]),
-              "chain": e["chain"], "perm": tuple(e["perm"])}
+              "chain": e["chain"], "perm": tuple(e["perm"]), "fault": e["fault"]}
     d = diff_states(st, logged)
-    return (meaning(d) + describe(d)) if d else ""
+    return (meaning(d, logged) + describe(d)) if d else ""
 
 
 def corrupted(u, sessions, how):
@@ -825,6 +931,12 @@ def corrupted(u, sessions, how):
                 c[i]["out"]["to"] = e["p"]
                 c[i]["out"]["respSent"] = True
                 return [{"events": c}]
+            if how == "sent-unrecorded" and e["a"] in ("disc", "miss") and i > 0 and evs[i - 1]["fault"] == 1 \
+                    and e["fault"] == 0 and e["md"] and not e["out"]["att"]:
+                c = copy.deepcopy(evs[:i + 1])          # the packet is logged although the write failed
+                c[i]["out"]["att"] = [c[i]["md"][0]]
+                c[i]["out"]["to"] = e["p"]
+                return [{"events": c}]
             if how == "stores-foreign-attestation" and e["a"] == "attest" and \
                     u.w["attSigner"][e["x"] - 1] != e["p"]:
                 c = copy.deepcopy(evs[:i + 1])
@@ -842,8 +954,7 @@ def replay_file(ctx, u, path):
     try:
         if rep.get("events"):
             for e in rep["events"]:
-                run.apply({k: v for k, v in e.items() if k in ("a", "h", "name", "subj", "meta", "d", "p", "mds",
-                                                                "toks", "atts", "k", "x")})
+                run.apply({k: v for k, v in e.items() if k in INPUT_KEYS})
                 print(e["a"], "->", short(run.out), run.problems)
         else:
             for lab in rep.get("actions", []):
@@ -871,7 +982,8 @@ def run(tier, seed, replay=None):
     ctx = Ctx(PID, tier, seed, "model_checking")
     ctx.cov["rule"] = ("TLC enumerates registrations x disclosures (honest, wrong key, wrong name, extra metadata, "
                        "dangling / foreign / reordered tokens, piggy-backed attestations, replays) x clock steps x "
-                       "token requests and incoming attestations; every transition of the dumped state graphs (edge "
+                       "token requests and incoming attestations x storage faults (a failed INSERT into the Attestations "
+                       "or Metadata table before any of them, then replays); every transition of the dumped state graphs (edge "
                        "cover; a seeded sample in the quick tier), TLC-simulated behaviours of the large configuration "
                        "and recorded random sessions are executed on a real IdentityCommunity node and the datagrams "
                        "leaving it plus its tables compared with the TLC state; non-trivial = distinct action "
@@ -880,7 +992,10 @@ def run(tier, seed, replay=None):
                         "identify who signed a stored row)",
                         "the instant 'exactly 300 s after the registration' is not exercised (299 and 301 are)",
                         "fewer than 100 tokens wait in a pseudonym's tree (no eviction from TokenTree.unchained)",
-                        "well-formed messages only (malformed encodings belong to C03)"]
+                        "well-formed messages only (malformed encodings belong to C03)",
+                        "a storage fault is the INSERT statement into the Attestations or Metadata table raising "
+                        "sqlite3.OperationalError once (harness wrapper on the node's database instance); failing "
+                        "commit() calls, faults on the Tokens table and crashes (C19) are not exercised here"]
     rng = random.Random(seed)
     u = Universe(load_catalogue(), loop, seed)
     if replay:
@@ -888,19 +1003,24 @@ def run(tier, seed, replay=None):
     quick = tier == "quick"
     pool = ThreadPoolExecutor(max_workers=12 if quick else 5)
     try:
-        ctl = {name: Job(pool, "IdentityMC.tla", "Identity_ctl_%s.cfg" % name, coverage=False, workers=2)
-               for name in ("already", "pk", "subject", "perm")}
-        graphs = {name: Job(pool, "IdentityMC.tla", "Identity_%s.cfg" % name, dump=True, workers=2 if quick else 4)
+        graphs = {name: Job(pool, "IdentityMC.tla", "Identity_%s.cfg" % name, dump=True, workers=2 if quick else 4,
+                            light=quick)
                   for name in GRAPHS}
-        sim = Job(pool, "IdentityMC.tla", "Identity_big.cfg", simulate=60 if quick else 4000, depth=16, seed=seed + 1)
+        sim = Job(pool, "IdentityMC.tla", "Identity_big.cfg", simulate=60 if quick else 4000, depth=16, seed=seed + 1,
+                  light=quick)
+        ctl = {name: Job(pool, "IdentityMC.tla", "Identity_ctl_%s.cfg" % name, coverage=False, workers=1, light=True)
+               for name in ("already", "pk", "subject", "perm", "commit", "record")}      # needed last: queued last
         mc = None if quick else Job(pool, "IdentityMC.tla", "Identity_mc.cfg", workers=8)
 
         # binding T first (the TLC jobs are running meanwhile)
+        import time as _time
+        phases, t_ph = {}, _time.time()
         sessions = record_sessions(ctx, u, rng, 60 if quick else 2500, 22 if quick else 26)
         ctx.sample({"recorded_session_first_events": [{k: v for k, v in e.items() if k in (
             "a", "p", "mds", "toks", "atts", "h", "name", "subj", "meta", "d", "k", "x", "out")}
             for e in sessions[0]["events"][:4]]})
         tjob = submit_sessions(pool, sessions) if not ctx.violations else None
+        phases["record_sessions"] = round(_time.time() - t_ph, 1)
 
         # binding R
         budget = 2500 if quick else None
@@ -909,7 +1029,9 @@ def run(tier, seed, replay=None):
             if len(ctx.violations) >= 4:
                 graphs[name].cleanup()
                 continue
-            r = replay_graph(ctx, u, graphs[name], name, max_ops=budget)
+            t_ph = _time.time()
+            r = replay_graph(ctx, u, graphs[name], name, max_ops=QUICK_BUDGET.get(name, budget) if quick else None)
+            phases["graph_" + name] = round(_time.time() - t_ph, 1)
             for k, v in r.coverage.items():
                 coverage[k] = coverage.get(k, 0) + v[1]
         if len(ctx.violations) < 4:
@@ -932,18 +1054,23 @@ def run(tier, seed, replay=None):
             if missing:
                 raise MachineryError("spec actions never taken by TLC: %s" % missing)
             for k in ("signed", "asked_missing", "handed_tokens", "reg", "tick", "disc", "miss", "selfadv", "reqadv",
-                      "reqmissing", "attest"):
+                      "reqmissing", "attest", "fault", "fault_hit_disc", "fault_hit_miss", "fault_hit_attest",
+                      "fault_hit_selfadv", "fault_hit_reqadv", "signed_after_failed_write"):
                 if not u.stats.get(k):
                     raise MachineryError("vacuous binding: no real step of kind %r was observed" % k)
         ctx.note("real_steps", dict(sorted(u.stats.items())))
+        ctx.note("wall_s_phases", phases)
 
         # negative controls: specification level (one defect switch each)
         want = {"already": "SignsOnlyConsented", "pk": "SignsOnlyConsented", "subject": "SignsOnlyConsented",
-                "perm": "TokensOnlyUpToPermitted"}
+                "perm": "TokensOnlyUpToPermitted", "commit": "SignsOnlyConsented", "record": "SentOnlyRecorded"}
         text = {"already": "spec with the pinned already-attested comparison (never matches) violates SignsOnlyConsented",
                 "pk": "spec with the pinned Attestations key (subject, metadata) violates SignsOnlyConsented",
                 "subject": "spec without the subject-key comparison violates SignsOnlyConsented",
-                "perm": "spec ignoring the permission index violates TokensOnlyUpToPermitted"}
+                "perm": "spec ignoring the permission index violates TokensOnlyUpToPermitted",
+                "commit": "spec sending the AttestPayload before the row is written violates SignsOnlyConsented "
+                          "(failed write, replayed disclosure attested again)",
+                "record": "spec sending the AttestPayload before the row is written violates SentOnlyRecorded"}
         for name, job in ctl.items():
             try:
                 r = job.result()
@@ -956,11 +1083,13 @@ def run(tier, seed, replay=None):
             for how, what in (("drop-attest", "session with one AttestPayload removed from the log is rejected"),
                               ("unconsented-attest", "session logging an attestation the spec does not allow is rejected"),
                               ("token-beyond-permission", "session logging a token beyond the permission is rejected"),
+                              ("sent-unrecorded",
+                               "session logging an AttestPayload at a step whose Attestations write failed is rejected"),
                               ("stores-foreign-attestation",
                                "session logging a stored attestation not signed by its sender is rejected")):
                 bad = corrupted(u, sessions, how)
                 if bad is None:
-                    if how in ("drop-attest", "unconsented-attest"):
+                    if how in ("drop-attest", "unconsented-attest", "sent-unrecorded"):
                         raise MachineryError("no recorded session offers a place for the control %r" % how)
                     continue
                 pending.append((what, submit_sessions(pool, bad)))
